@@ -159,8 +159,128 @@ def _short(v):
     return s if len(s) < 240 else s[:240] + '...'
 
 
+PROBE_PROGRAM = {'encoding': 'utf-8', 'calls': [
+    ['preamble', {'text': 'main\npreamble'}],
+    ['meta', {'metadata': {'k': 1}}],
+    ['change', {'encoding': 'latin-1'}],
+    ['preamble', {'text': 'change preamble', 'indent': 2}],
+    ['meta', {'metadata': {'c': [1]}}],
+    ['file', {}],
+    ['meta', {'metadata': {'path': 'f'}}],
+    ['diff', {'content': b'@@ -1 +1 @@\n-a\n+b\n', 'diff_type': 'text'}],
+]}
+
+
+def sweep_chunks(tier, seed):
+    names = [k for k in sut.identifier_names() if k not in KNOWN]
+    names += [k for k in KEYS if k not in names]
+    n = 16
+    return [names[i::n] for i in range(n)]
+
+
+def run_sweep_chunk(names, st):
+    data = spec.ref_serialize(PROBE_PROGRAM)
+    exp, err = spec.ref_parse(data)
+    base, berr = sut.read_records(data)
+
+    if err is not None or berr is not None:
+        raise sut.HarnessError('probe file not readable: %r %r' % (err, berr))
+
+    evals = 0
+    sample = None
+
+    for name in names:
+        for j, rec in enumerate(exp):
+            for value in ('1', 'x', '0'):
+                for first in (False, True):
+                    case = {'key': name, 'header': j, 'value': value,
+                            'first': first}
+                    evals += 1
+                    res = judge_probe(data, exp, base, case)
+
+                    if sample is None:
+                        sample = case
+
+                    if res is not None:
+                        st.violation(res[0], res[1], case)
+
+    st.bulk(evals, evals, sample=sample)
+
+
+def judge_probe(data, exp, base, case):
+    j = case['header']
+    hs_, cs, _ce = exp[j]['span']
+    header = data[hs_:cs - 1]
+    pair = ('%s=%s' % (case['key'], case['value'])).encode('ascii')
+
+    if case['first']:
+        colon = header.index(b':') + 1
+        rest = header[colon:].lstrip(b' ')
+        new = header[:colon] + b' ' + pair + (b', ' + rest if rest else b'')
+    else:
+        new = header + (b' ' if header.endswith(b':') else b', ') + pair
+
+    blob = data[:hs_] + new + b'\n' + data[cs:]
+    recs, err = sut.read_records(blob)
+
+    if err is not None:
+        return ('extended-file-rejected:%s' % type(err).__name__,
+                '%r on header %d (%s): %r' % (pair, j, exp[j]['section'],
+                                              err))
+
+    if len(recs) != len(base):
+        return 'record-count-changed', '%r on header %d' % (pair, j)
+
+    for i, (a, b) in enumerate(zip(base, recs)):
+        want = dict(a['options'])
+
+        if i == j:
+            want[case['key']] = spec.convert_value(case['value'])[0]
+
+        if b.get('options') != want:
+            return ('options-not-carried',
+                    '%r on header %d: record %d options %r, expected %r'
+                    % (pair, j, i, b.get('options'), want))
+
+        ra = {k: v for k, v in a.items() if k != 'options'}
+        rb = {k: v for k, v in b.items() if k != 'options'}
+
+        if ra != rb or any(type(ra[k]) is not type(rb[k]) for k in ra):
+            return ('record-changed',
+                    '%r on header %d (%s) changed record %d: %r vs %r'
+                    % (pair, j, exp[j]['section'], i, _short(ra),
+                       _short(rb)))
+
+    return None
+
+
+def run_sweep_case(case, st):
+    data = spec.ref_serialize(PROBE_PROGRAM)
+    exp, _ = spec.ref_parse(data)
+    base, _e = sut.read_records(data)
+    res = judge_probe(data, exp, base, case)
+    st.case(case, nontrivial=True)
+
+    if res is not None:
+        st.violation(res[0], res[1], case)
+
+
 def checks():
+    from dxv.engine import EnumCheck
     return [
+        EnumCheck(
+            'identifier-sweep', sweep_chunks, run_sweep_chunk,
+            run_case=run_sweep_case,
+            rule='a fixed file with all nine section kinds x every '
+                 'identifier the library itself uses (argument, local and '
+                 'attribute names harvested from the reader and object-model '
+                 'code objects, ~270) and the curated key list x every '
+                 'header x values {1, x, 0} x {first, last} position: an '
+                 'unknown option named like something internal must be '
+                 'carried through like any other; each case distinct and '
+                 'non-trivial',
+            bound={'quick': 'all harvested names x 9 headers x 3 values x 2 '
+                            'positions', 'thorough': 'same'}),
         HypCheck(
             'unknown-options', cases, run_case,
             budget={'quick': (16, 150), 'thorough': (16, 5000)},
